@@ -1062,3 +1062,114 @@ Proof.
       rewrite binning1_nth by exact Hj. rewrite sel_selx.
       rewrite (spec_sel2 ax ay i j xs Hzx Hbx Hzy Hby). reflexivity.
 Qed.
+
+(* ------------------------------------------------------------------------------------------ *)
+(* Histories of collects, and the map observers of a bin description                            *)
+(* ------------------------------------------------------------------------------------------ *)
+
+(* In the model a partial result is a value: nothing can change it, so "every partial result still is the
+   binning of its own part after any number of collects" holds by construction and is not a theorem the
+   model could violate (the correspondence run checks it on the real objects, which are mutable Go slices).
+   What remains is: EVERY collect of a history - any selection of the parts, in any order, with repetition -
+   returns the binning of the concatenation of the selected parts. *)
+Lemma collect_history1 : forall (start size : Q) (count : N) (parts : list (list (Q * Q))) (steps : list (list nat)),
+  let a := new_axis start size count in
+  Forall (fun idxs => idxs <> [] ->
+            let sel := map (fun i => nth i parts []) idxs in
+            exists v, collect1 (map (binning a) sel) = COk (fst (binning a (concat sel)), v) /\
+                      leq v (snd (binning a (concat sel)))) steps.
+Proof.
+  intros start size count parts steps a. apply Forall_forall. intros idxs _ Hne sel.
+  apply collect_is_whole1. unfold sel. destruct idxs; [congruence | cbn [map]; discriminate].
+Qed.
+
+Lemma collect_history2 : forall (xstart xsize : Q) (xcount : N) (ystart ysize : Q) (ycount : N)
+  (parts : list (list (Q * Q * Q))) (steps : list (list nat)),
+  let ax := new_axis xstart xsize xcount in
+  let ay := new_axis ystart ysize ycount in
+  Forall (fun idxs => idxs <> [] ->
+            let sel := map (fun i => nth i parts []) idxs in
+            let whole := binning_2d ax ay (concat sel) in
+            exists v, collect2 (map (binning_2d ax ay) sel) = COk (fst whole, v) /\
+                      map fst v = map fst (snd whole) /\ leq2 (map snd v) (map snd (snd whole))) steps.
+Proof.
+  intros xstart xsize xcount ystart ysize ycount parts steps ax ay. apply Forall_forall. intros idxs _ Hne sel.
+  apply collect_is_whole2. unfold sel. destruct idxs; [congruence | cbn [map]; discriminate].
+Qed.
+
+(* the record getDescr builds shows exactly the description used in the theorems above *)
+Lemma descr_of_get_bin : forall a i, descr_of_bin (get_bin a i) = get_descr a i.
+Proof.
+  intros a i. unfold get_bin, get_descr, descr_of_bin.
+  destruct (i =? 0)%Z; [reflexivity |]. destruct (i =? a_bins a - 1)%Z; reflexivity.
+Qed.
+
+Definition opt_num (o : option Q) : option bval := match o with Some q => Some (BNum q) | None => None end.
+
+(* facts about the observers of ANY bin record *)
+Lemma bin_avail_flags : forall b, map_is_avail b [KMin] = b_ismin b /\ map_is_avail b [KMax] = b_ismax b /\
+  map_is_avail b [KStr] = true /\ map_is_avail b [KOther] = false.
+Proof. intros [im mn ix mx]. cbn. rewrite !andb_true_r. repeat split. Qed.
+
+Lemma bin_get_descr : forall b, map_get b KMin = opt_num (fst (descr_of_bin b)) /\
+  map_get b KMax = opt_num (snd (descr_of_bin b)) /\ map_get b KStr = Some BStr /\ map_get b KOther = None.
+Proof. intros [im mn ix mx]. destruct im; destruct ix; cbn; repeat split. Qed.
+
+Lemma bin_contains_avail : forall b k, map_contains b k = map_is_avail b [k].
+Proof. intros b k. unfold map_contains, map_is_avail. cbn [forallb]. rewrite andb_true_r. reflexivity. Qed.
+
+Lemma bin_iter_get : forall b k, kv_get (bin_iter b) k = map_get b k.
+Proof. intros [im mn ix mx] k. destruct im; destruct ix; destruct k; reflexivity. Qed.
+
+Lemma bin_size_iter : forall b, bin_size b = N.of_nat (length (bin_iter b)).
+Proof. intros [im mn ix mx]. destruct im; destruct ix; reflexivity. Qed.
+
+Lemma bin_equals_self_true : forall b, bin_equals_self b = true.
+Proof.
+  intros [im mn ix mx]. destruct im; destruct ix; unfold bin_equals_self; cbn; rewrite ?Qeq_bool_refl; reflexivity.
+Qed.
+
+Lemma get_bin_flags : forall a i, (2 <= a_bins a)%Z ->
+  b_ismin (get_bin a i) = negb (i =? 0)%Z /\ b_ismax (get_bin a i) = negb (i =? a_bins a - 1)%Z.
+Proof.
+  intros a i Hb. unfold get_bin.
+  destruct (Z.eqb_spec i 0) as [E0 | N0].
+  - subst i. destruct (Z.eqb_spec 0 (a_bins a - 1)); [lia | split; reflexivity].
+  - destruct (Z.eqb_spec i (a_bins a - 1)); split; reflexivity.
+Qed.
+
+(* every map observer of the description of bin i answers from the description: a bound is available,
+   gettable, contained, listed and counted exactly when the description has it (min unless i = 0, max
+   unless i = count+1), str always, any other key never *)
+Lemma descr_observers : forall (a : axis) (i : Z), (2 <= a_bins a)%Z ->
+  let b := get_bin a i in
+  let d := get_descr a i in
+  (map_is_avail b [KMin] = true <-> i <> 0%Z) /\ (map_is_avail b [KMax] = true <-> i <> (a_bins a - 1)%Z) /\
+  map_is_avail b [KStr] = true /\ map_is_avail b [KOther] = false /\
+  map_get b KMin = opt_num (fst d) /\ map_get b KMax = opt_num (snd d) /\
+  map_get b KStr = Some BStr /\ map_get b KOther = None /\
+  (forall k, map_contains b k = map_is_avail b [k]) /\
+  (forall k, kv_get (bin_iter b) k = map_get b k) /\
+  bin_size b = N.of_nat (length (bin_iter b)) /\
+  bin_equals_self b = true.
+Proof.
+  intros a i Hb b d.
+  destruct (bin_avail_flags b) as [A1 [A2 [A3 A4]]].
+  destruct (bin_get_descr b) as [G1 [G2 [G3 G4]]].
+  destruct (get_bin_flags a i Hb) as [F1 F2]. fold b in F1, F2.
+  assert (Hd : descr_of_bin b = d) by apply descr_of_get_bin.
+  rewrite Hd in G1, G2.
+  split; [| split; [| split; [| split; [| split; [| split; [| split; [| split; [| split; [| split; [| split]]]]]]]]]].
+  - rewrite A1, F1. destruct (Z.eqb_spec i 0); cbn; split; intro H; try congruence; try lia.
+  - rewrite A2, F2. destruct (Z.eqb_spec i (a_bins a - 1)); cbn; split; intro H; try congruence; try lia.
+  - exact A3.
+  - exact A4.
+  - exact G1.
+  - exact G2.
+  - exact G3.
+  - exact G4.
+  - apply bin_contains_avail.
+  - apply bin_iter_get.
+  - apply bin_size_iter.
+  - apply bin_equals_self_true.
+Qed.
